@@ -6,24 +6,26 @@ Require Import Tac ListN Utf8 Width Attrs Cell Row Grid Screen Vte Perform Parse
 Require Import RowInv GridInv TextInv ScreenInv ParseSer CellWf WfGrid WfInv WrapInv WrapInvScreen SgrSpec EmitSafe ObsSpec.
 Require Import AttrsInv EmitTokens CellInv Recv RowPaint Redraw Cursor C01Main C15Main CapInv Idem LastRow C01Examples Bytes.
 Require Import DiffRound DiffPaint DiffGrid DiffMain DiffRoundU DiffWrap DiffK10.
+Require Import Chunking PendTok.
 Open Scope N_scope.
 
 (* one diff step on a parser whose screen shows P *)
 Lemma diff_step_bytes_all P S r :
   reachable P -> reachable S -> sb_off (cur P) = 0 -> sb_off (cur S) = 0 ->
   grows (cur S) = grows (cur P) -> gcols (cur S) = gcols (cur P) ->
-  ground (vt r) -> shows P (scr r) (live (cur P)) -> same_modes P (scr r) ->
+  pend r = [] -> ground (vt r) -> shows P (scr r) (live (cur P)) -> same_modes P (scr r) ->
   exists ts r', state_diff_t S P = Ok ts /\ process r (ser_all ts) = Ok r' /\
     log r' = log r /\ ground (vt r') /\ resizing r' = resizing r /\
-    shows S (scr r') (live (cur S)) /\ same_modes S (scr r') /\ obs (scr r') = obs S.
+    shows S (scr r') (live (cur S)) /\ same_modes S (scr r') /\ obs (scr r') = obs S /\ pend r' = [].
 Proof.
-  intros RP RS OffP OffS Er Ec Gr Sh Sm.
+  intros RP RS OffP OffS Er Ec Hpd Gr Sh Sm.
   pose proof (reachable_source P RP OffP) as HP. pose proof (reachable_source S RS OffS) as HS.
   destruct (reachable_tokens_ok S P 0 0 RS RP) as (_ & _ & _ & _ & (ts & Ets & Tok & _) & _).
   destruct (state_diff_obs_all S P (scr r) ts HS HP (reachable_lastu S RS) OffS Er Ec Sh Sm Ets)
     as (R' & P' & C' & Eo & Sh' & Sm').
-  destruct (process_tokens r ts R' Gr Tok P') as (r' & Ep & <- & El & Gq & Rz).
-  exists ts, r'. auto 10.
+  destruct (process_tokens r ts R' Hpd Gr Tok P') as (r' & Ep & <- & El & Gq & Rz).
+  pose proof (process_ser_all_pend r ts r' Hpd Tok Ep) as Hpd'.
+  exists ts, r'. auto 12.
 Qed.
 
 Theorem diff_round_all_strong P S :
@@ -33,8 +35,8 @@ Theorem diff_round_all_strong P S :
 Proof.
   intros RP RS OffP OffS Er Ec.
   destruct (reproduce_shows P RP OffP) as (r & Erp & Lr & Gr & Sh & Sm).
-  destruct (diff_step_bytes_all P S r RP RS OffP OffS (eq_sym Er) (eq_sym Ec) Gr Sh Sm)
-    as (ts & r' & Ets & Ep & El & Gq & _ & Sh' & _ & Eo).
+  destruct (diff_step_bytes_all P S r RP RS OffP OffS (eq_sym Er) (eq_sym Ec) (reproduce_pend P r RP Erp) Gr Sh Sm)
+    as (ts & r' & Ets & Ep & El & Gq & _ & Sh' & _ & Eo & _).
   exists r'. unfold diff_round. rewrite Erp. cbn [bind]. rewrite Ets. cbn [bind].
   split; [exact Ep|]. split; [exact Eo|]. split; [congruence|]. split; [exact Gq|apply Sh'].
 Qed.
@@ -55,19 +57,19 @@ Definition snap_all (rows cols : N) (s : screen) : Prop :=
 
 Theorem diff_chain_all rows cols : forall snaps prev r,
   snap_all rows cols prev -> Forall (snap_all rows cols) snaps ->
-  ground (vt r) -> shows prev (scr r) (live (cur prev)) -> same_modes prev (scr r) ->
+  pend r = [] -> ground (vt r) -> shows prev (scr r) (live (cur prev)) -> same_modes prev (scr r) ->
   exists r', diff_chain r prev snaps = Ok r' /\ log r' = log r /\ ground (vt r') /\
              shows (last_snap prev snaps) (scr r') (live (cur (last_snap prev snaps))) /\
              same_modes (last_snap prev snaps) (scr r') /\
              obs (scr r') = obs (last_snap prev snaps).
 Proof.
-  induction snaps as [|s rest IH]; intros prev r Hp Hs Gr Sh Sm.
+  induction snaps as [|s rest IH]; intros prev r Hp Hs Hpd Gr Sh Sm.
   - exists r. cbn [diff_chain last_snap]. split; [reflexivity|]. split; [reflexivity|]. split; [exact Gr|].
     split; [exact Sh|]. split; [exact Sm|]. destruct Hp as (_ & Off & _). now apply shows_obs.
   - inv Hs. destruct Hp as (RP & OffP & Pr & Pc). destruct H1 as (RS & OffS & Sr & Sc).
-    destruct (diff_step_bytes_all prev s r RP RS OffP OffS ltac:(congruence) ltac:(congruence) Gr Sh Sm)
-      as (ts & r1 & Ets & Ep & El & G1 & _ & Sh1 & Sm1 & _).
-    destruct (IH s r1 (conj RS (conj OffS (conj Sr Sc))) H2 G1 Sh1 Sm1) as (r' & E' & L' & G' & Sh' & Sm' & Eo').
+    destruct (diff_step_bytes_all prev s r RP RS OffP OffS ltac:(congruence) ltac:(congruence) Hpd Gr Sh Sm)
+      as (ts & r1 & Ets & Ep & El & G1 & _ & Sh1 & Sm1 & _ & Pd1).
+    destruct (IH s r1 (conj RS (conj OffS (conj Sr Sc))) H2 Pd1 G1 Sh1 Sm1) as (r' & E' & L' & G' & Sh' & Sm' & Eo').
     exists r'. cbn [diff_chain last_snap]. rewrite Ets. cbn [bind]. rewrite Ep. cbn [bind].
     split; [exact E'|]. split; [congruence|]. auto.
 Qed.
@@ -79,6 +81,6 @@ Theorem diff_chain_round_all rows cols S0 snaps :
 Proof.
   intros H0 Hs. pose proof H0 as (R0 & Off & Rr & Rc).
   destruct (reproduce_shows S0 R0 Off) as (r & Erp & Lr & Gr & Sh & Sm).
-  destruct (diff_chain_all rows cols snaps S0 r H0 Hs Gr Sh Sm) as (r' & E' & L' & G' & _ & _ & Eo).
+  destruct (diff_chain_all rows cols snaps S0 r H0 Hs (reproduce_pend S0 r R0 Erp) Gr Sh Sm) as (r' & E' & L' & G' & _ & _ & Eo).
   exists r, r'. split; [exact Erp|]. split; [exact E'|]. split; [exact Eo|]. split; [congruence|exact G'].
 Qed.
